@@ -62,6 +62,7 @@ func init() {
 		type baseInfo struct {
 			ast      astNode
 			verdicts []bool
+			refused  string
 		}
 		bases := map[string]*baseInfo{}
 		readLines(openIn(*casesPath), func(line []byte) {
@@ -104,11 +105,19 @@ func init() {
 			b, ok := bases[c.Base]
 			if !ok {
 				s := gapSchema(c.Base)
+				b = &baseInfo{}
 				if err := s.Check(); err != nil {
-					fatal(fmt.Sprintf("the compact spelling %q is not accepted: %v", c.Base, err))
+					// the token lists are accepted on the tree they were written for; if the compact spelling is refused, every spelling
+					// that is accepted shows that the verdict depends on the spelling
+					b.refused = fmt.Sprint(err)
+					bases[c.Base] = b
 				}
+			}
+			if !ok && b.refused == "" {
+				s := gapSchema(c.Base)
+				_ = s.Check()
 				a, _ := s.GetAST()
-				b = &baseInfo{ast: barFree(convAST(a))}
+				b.ast = barFree(convAST(a))
 				for _, d := range gapProbes {
 					b.verdicts = append(b.verdicts, s.Validate(jdoc.New("d", d)) == nil)
 				}
@@ -121,6 +130,12 @@ func init() {
 			s := gapSchema(c.Text)
 			o := guard(func() error { return s.Check() })
 			evals++
+			if b.refused != "" {
+				if o.OK {
+					bad("this spelling is accepted, the compact one is refused: " + strings.SplitN(b.refused, "\n", 2)[0])
+				}
+				return
+			}
 			if !o.OK {
 				bad(fmt.Sprintf("the compact spelling is accepted, this one: %d %s%s at %d", o.Code, o.Msg, o.Panic, o.Pos))
 				return
